@@ -784,10 +784,12 @@ xar_read_header(struct archive_read *a, struct archive_entry *entry)
 	archive_entry_set_ino64(entry, file->ino64);
 	if (file->has & HAS_DEV)
 		archive_entry_set_dev(entry, file->dev);
+	/* <device> describes the special file itself; the device the
+	 * file lives on is <deviceno>. */
 	if (file->has & HAS_DEVMAJOR)
-		archive_entry_set_devmajor(entry, file->devmajor);
+		archive_entry_set_rdevmajor(entry, file->devmajor);
 	if (file->has & HAS_DEVMINOR)
-		archive_entry_set_devminor(entry, file->devminor);
+		archive_entry_set_rdevminor(entry, file->devminor);
 	if (archive_strlen(&(file->fflags_text)) > 0)
 		archive_entry_copy_fflags_text(entry, file->fflags_text.s);
 
